@@ -420,7 +420,8 @@ func ruleR16ac(c *Ctx) {
 				hasMon = true
 			}
 		})
-		isWriteEntry := fn.Parent() == nil && fn.Object() != nil && fn.Object().Exported() && recvTypeName(fn) == "Commander" && m.persisters[fn] && fn != m.run
+		isFrame := notifyParams[fn] != nil
+		isWriteEntry := isFrame || (fn.Parent() == nil && fn.Object() != nil && fn.Object().Exported() && recvTypeName(fn) == "Commander" && m.persisters[fn] && fn != m.run)
 		if !hasMon && !isWriteEntry {
 			continue
 		}
@@ -434,7 +435,7 @@ func ruleR16ac(c *Ctx) {
 				return false
 			}
 			for _, f := range c.CalleesOf(call) {
-				if m.persisters[f] {
+				if m.persisters[f] || notifyParams[f] != nil {
 					ei := errResultIdx(f.Signature)
 					if f.Signature.Results().Len() == 1 {
 						return ei == 0 && v == ssa.Value(call)
@@ -457,6 +458,11 @@ func ruleR16ac(c *Ctx) {
 							oblA.violate(k, ci.Pos(), "monitor."+mm.Name()+" is called on a path that has not passed the nil-error edge of the call that persists the change: an event is published for a write that failed or is not yet persisted", pc.Trail())
 						}
 						return s | mon
+					}
+					// a frame of the package that runs an execution literal and then calls the notification literal it is
+					// given (decided as a write entry of its own): the call persists and, on its nil-error edge, has published
+					if g := staticCallee(ci); g != nil && notifyParams[g] != nil && g != fn {
+						return (s | persisted | mon) &^ okPersist
 					}
 					for _, f := range c.CalleesOf(ci) {
 						if m.persisters[f] {
@@ -842,16 +848,75 @@ func argIsPayloadField(v ssa.Value, payload, field string, m *cmdModel, c *Ctx) 
 	if df == nil || df.Name() != "Data" {
 		return false
 	}
-	for _, r := range roots(rootBase(lbase), nil) {
-		if call, idx := resultOf(r); call != nil && idx == 0 {
-			for _, fcal := range c.CalleesOf(call) {
-				if m.persisters[fcal] {
-					return true
+	var fromPersister func(v ssa.Value, depth int) bool
+	fromPersister = func(v ssa.Value, depth int) bool {
+		if depth > 3 {
+			return false
+		}
+		for _, r := range roots(v, nil) {
+			if call, idx := resultOf(r); call != nil && idx == 0 {
+				for _, fcal := range c.CalleesOf(call) {
+					if m.persisters[fcal] {
+						return true
+					}
+				}
+			}
+			// the parameter of a notification literal: what the frame it is handed to calls it with
+			if p, ok := r.(*ssa.Parameter); ok {
+				for _, a := range boundInFrame(p) {
+					if fromPersister(a, depth+1) {
+						return true
+					}
+				}
+			}
+		}
+		return false
+	}
+	return fromPersister(rootBase(lbase), 0)
+}
+
+// boundInFrame: p is a parameter of a function literal that is handed to a function F of its package as a function
+// value; the values F calls that function value with, at p's position.
+func boundInFrame(p *ssa.Parameter) []ssa.Value {
+	lit := p.Parent()
+	if lit == nil || lit.Parent() == nil {
+		return nil
+	}
+	idx := paramIndex(p)
+	var out []ssa.Value
+	for _, b := range lit.Parent().Blocks {
+		for _, ins := range b.Instrs {
+			mc, ok := ins.(*ssa.MakeClosure)
+			if !ok || mc.Fn != ssa.Value(lit) {
+				continue
+			}
+			for _, r := range *mc.Referrers() {
+				call, ok := r.(ssa.CallInstruction)
+				if !ok {
+					continue
+				}
+				g := staticCallee(call)
+				if g == nil || len(g.Blocks) == 0 {
+					continue
+				}
+				for j, a := range call.Common().Args {
+					if a != ssa.Value(mc) || j >= len(g.Params) {
+						continue
+					}
+					np := g.Params[j]
+					allCalls(g, func(ci ssa.CallInstruction) {
+						if ci.Common().IsInvoke() || ci.Common().Value != ssa.Value(np) {
+							return
+						}
+						if idx >= 0 && idx < len(ci.Common().Args) {
+							out = append(out, ci.Common().Args[idx])
+						}
+					})
 				}
 			}
 		}
 	}
-	return false
+	return out
 }
 
 // ---- R16f: the publishing monitor publishes on every path ------------------------------------------------
